@@ -26,25 +26,28 @@ structure KdAtt where
   dataSize : Nat
 deriving Repr
 
-/-- the `for i < GetNumAttributes()` loop of `DecodePortableAttributes`: `Reset(num_points)` of
-    every attribute (and of the portable attribute of a float attribute), classification by
-    data type, running `total_dimensionality` -/
+/-- one iteration of the `for i < GetNumAttributes()` loop of `DecodePortableAttributes`:
+    `Reset(num_points)` of the attribute (and of the portable attribute of a float attribute),
+    classification by data type; `dim` = `total_dimensionality` so far -/
+def classifyOne (numPoints : Nat) (d : AttDesc) (dim : Nat) : DecM KdAtt := do
+  alloc "attribute.Reset" (numPoints * (dataTypeLength d.dataType * d.numComponents))
+  let dt := d.dataType
+  if dt = Generated.DT_UINT32.toNat ∨ dt = Generated.DT_UINT16.toNat ∨ dt = Generated.DT_UINT8.toNat then
+    pure ⟨d, 0, dim, dataTypeLength dt⟩
+  else if dt = Generated.DT_INT32.toNat ∨ dt = Generated.DT_INT16.toNat ∨ dt = Generated.DT_INT8.toNat then
+    pure ⟨d, 1, dim, dataTypeLength dt⟩
+  else if dt = Generated.DT_FLOAT32.toNat then do
+    alloc "kd_tree.portable_attribute.Reset" (numPoints * (4 * d.numComponents))
+    pure ⟨d, 2, dim, 4⟩
+  else fail
+
+/-- the whole loop, with the running `total_dimensionality` -/
 def classify (numPoints : Nat) : List AttDesc → Nat → DecM (List KdAtt × Nat)
   | [], dim => pure ([], dim)
   | d :: ds, dim => do
-    alloc "attribute.Reset" (numPoints * (dataTypeLength d.dataType * d.numComponents))
-    let dt := d.dataType
-    let ka : KdAtt ←
-      if dt = Generated.DT_UINT32.toNat ∨ dt = Generated.DT_UINT16.toNat ∨ dt = Generated.DT_UINT8.toNat then
-        pure ⟨d, 0, dim, dataTypeLength dt⟩
-      else if dt = Generated.DT_INT32.toNat ∨ dt = Generated.DT_INT16.toNat ∨ dt = Generated.DT_INT8.toNat then
-        pure ⟨d, 1, dim, dataTypeLength dt⟩
-      else if dt = Generated.DT_FLOAT32.toNat then do
-        alloc "kd_tree.portable_attribute.Reset" (numPoints * (4 * d.numComponents))
-        pure ⟨d, 2, dim, 4⟩
-      else fail
-    let (kas, dim') ← classify numPoints ds (dim + d.numComponents)
-    pure (ka :: kas, dim')
+    let ka ← classifyOne numPoints d dim
+    let r ← classify numPoints ds (dim + d.numComponents)
+    pure (ka :: r.1, r.2)
 
 /-- `PointAttributeVectorOutputIterator::operator=(const std::vector<uint32_t>&)` for one
     attribute: components `offset … offset + num_components` of the point, each cut to
@@ -59,31 +62,37 @@ inductive KdTransform where
   | quant (bits : Nat) (mins : List Nat) (range : Nat)
 deriving Repr
 
+/-- quantization parameters of one float attribute: `min_values`, `range`, `quantization_bits` -/
+def quantParamsOf (ka : KdAtt) : DecM KdTransform :=
+  if ka.kind = 2 then do
+    let mins ← replicateM' ka.desc.numComponents rdU32
+    let range ← rdU32
+    let bits ← rdU8
+    require (bits ≤ 31)
+    -- AttributeQuantizationTransform::SetParameters → IsQuantizationValid
+    require (1 ≤ bits && bits ≤ 30)
+    pure (KdTransform.quant bits mins range)
+  else pure KdTransform.none
+
 /-- `DecodeDataNeededByPortableTransforms` (bitstream ≥ 2.3), first loop: float attributes -/
 def decodeQuantParams : List KdAtt → DecM (List KdTransform)
   | [] => pure []
   | ka :: kas => do
-    let t ←
-      if ka.kind = 2 then do
-        let mins ← replicateM' ka.desc.numComponents rdU32
-        let range ← rdU32
-        let bits ← rdU8
-        require (bits ≤ 31)
-        -- AttributeQuantizationTransform::SetParameters → IsQuantizationValid
-        require (1 ≤ bits && bits ≤ 30)
-        pure (KdTransform.quant bits mins range)
-      else pure KdTransform.none
+    let t ← quantParamsOf ka
     let ts ← decodeQuantParams kas
     pure (t :: ts)
 
-/-- second loop: one `DecodeVarint<int32_t>` per component of every signed attribute -/
+/-- `min_signed_values_` of one signed attribute: one `DecodeVarint<int32_t>` per component -/
+def signedMinsOf (ka : KdAtt) (t : KdTransform) : DecM KdTransform :=
+  if ka.kind = 1 then do
+    let mins ← replicateM' ka.desc.numComponents (lift (decVarintSigned 32))
+    pure (KdTransform.signed mins)
+  else pure t
+
+/-- second loop: the signed attributes -/
 def decodeSignedMins : List KdAtt → List KdTransform → DecM (List KdTransform)
   | ka :: kas, t :: ts => do
-    let t' ←
-      if ka.kind = 1 then do
-        let mins ← replicateM' ka.desc.numComponents (lift (decVarintSigned 32))
-        pure (KdTransform.signed mins)
-      else pure t
+    let t' ← signedMinsOf ka t
     let ts' ← decodeSignedMins kas ts
     pure (t' :: ts')
   | _, _ => pure []
@@ -129,7 +138,9 @@ def decodeKdAttributes (opts : DecOpts) (numPoints : Nat) (descs : List AttDesc)
   -- DecodePortableAttributes
   let level ← rdU8
   alloc "kd_tree.atts" (24 * descs.length)
-  let (kas, dim) ← classify numPoints descs 0
+  let cl ← classify numPoints descs 0
+  let kas := cl.1
+  let dim := cl.2
   -- PointAttributeVectorOutputIterator: memory_.resize(max data_size * num_components)
   alloc "kd_tree.output_iterator.memory" (kas.foldl (fun m ka => max m (ka.dataSize * ka.desc.numComponents)) 0)
   require (level ≤ 6)
@@ -138,8 +149,10 @@ def decodeKdAttributes (opts : DecOpts) (numPoints : Nat) (descs : List AttDesc)
   alloc "kd_tree_decoder.axes" (4 * dim)
   alloc "kd_tree_decoder.base_stack" ((32 * dim + 1) * (24 + 4 * dim))
   alloc "kd_tree_decoder.levels_stack" ((32 * dim + 1) * (24 + 4 * dim))
-  let (numDecoded, pts) ← decodePoints level dim numPoints
-  require (numDecoded == numPoints)
+  let dp ← decodePoints level dim numPoints
+  -- `decoder.num_decoded_points() != num_expected_points`
+  require (dp.1 == numPoints)
+  let pts := dp.2
   -- DecodeDataNeededByPortableTransforms
   let ts ← decodeQuantParams kas
   let ts ← decodeSignedMins kas ts
